@@ -9,6 +9,10 @@ COMMON_NOTE = ("Trusted base: rustc/cargo 1.80.1, serde/serde_json, syn, python 
                "see DESIGN.md section 4 'Outside' for what the bound leaves open.")
 
 CHECKS = {
+ "C08": dict(
+  text="Exhaustive enumeration of every string of length <=3 (quick) / <=4 (thorough) over a 13-character alphabet (XID_Start ASCII and non-ASCII, XID_Continue-only, '_', '-', apostrophe, space, symbols, case-mapping changers), the Rust keyword list in three casings and sanitize's special cases, each as member name, enum value and definition key, then every pair the implementation itself maps to one identifier (collision classes discovered through the adapter); each ingested by the real typify-impl and judged on the parsed output (identifiers distinct per scope, effective serde wire name == JSON name) and, for a covering subset, compiled and round-tripped under the exact name.",
+  design="DESIGN.md 4/C08", technique="bounded exhaustive string enumeration on the implementation, collision classes discovered from the implementation, structural scan + compiled wire round trip",
+  note="A failing add is accepted by the statement and only counted. Strings longer than 4 outside the keyword list are not covered (the quantifier's random longer strings are not sampled). " + COMMON_NOTE),
  "C07": dict(
   text="Exhaustive enumeration of reference multigraphs over n definitions (n=1 and n=2 complete over 8 struct edge kinds, alias nodes and 4 enum payload kinds, n=3 over a reduced alphabet, each also with a definition sharing Option/tuple nodes with the cycle); every graph is ingested by the real typify-impl and the containment graph read from the public Type API is searched for a cycle without heap indirection, and for a Box in graphs without by-value cycle; graphs with a by-value cycle are compiled by rustc and recursive values round-tripped.",
   design="DESIGN.md 4/C07", technique="exhaustive small-scope graph enumeration on the implementation + independent cycle search; compile/run tier on generated code",
